@@ -211,6 +211,8 @@ func (h *HTTP) Start() {
 
 	h.GinEngine.POST("/*endpoint", h.request)
 	h.GinEngine.GET("/*endpoint", h.fake404)
+	// every other method gets the decoy too, not the framework's default 404
+	h.GinEngine.NoRoute(h.fake404)
 	h.Active = true
 
 	if h.Config.Secure {
